@@ -50,7 +50,22 @@ No interpretation happens here except:
   * `x.ravel()[:] = e` (filling a fresh array through its flat view) becomes `x = fill_flat(x, e)`, the
     specification of "fill_flat" being the array of x's shape holding the items of e in C order; admitted
     only for a provably fresh, un-escaped array x (np.empty(...) is C-contiguous, so ravel() is a view).
-  * `a[:, k]` becomes the builtin "index[:,]"."""
+  * `a[:, k]` becomes the builtin "index[:,]".
+  * (phase 4) `def f(.., **kwargs)`: the dictionary of the extra keyword arguments is one more parameter, the LAST
+    one, and it is OPAQUE: the name may occur in the function only as `**kwargs`, the last argument of a call
+    without a starred argument.  Such a call `g(a, k=v, **kwargs)` becomes a call of "g,k=,**" with the arguments
+    [a; v; kwargs] (Python evaluates them in this order); what g does with the dictionary is the callee's affair
+    (the templates give it by specification).
+  * (phase 4) `x.extend(e)` as a statement, x a provably fresh un-escaped list, becomes `x = x + list(e)` (list
+    concatenation; `zip(..)` is admitted for e: it is consumed at once).
+  * (phase 4) stores THROUGH a fresh local object: a name bound to the result of a call in FRESH_OBJECT_CALLS
+    (functions that build and return a new container nobody else holds: `make_xarray_grid`) is a fresh "object";
+    `x.a[k] = v` / `x[i].a[k] = v` (a path of attribute / index steps rooted at such an x, every index a name or
+    a constant, so that the order of evaluation cannot matter) becomes `x = store:<path>(x, i.., k, v)` with the
+    path written in the callee's name (".attrs[]", "[].attrs[]"): the specification of the store - given in the
+    template - returns the new state of x.  `for t in x` over such an object becomes `for t in iter(x)` ("iter"
+    by specification: the keys as of the start of the loop); the loop body may store through x - the
+    specification of the store must leave the keys alone (stated in the template)."""
 import ast
 import os
 from fractions import Fraction
@@ -217,8 +232,13 @@ class Translator:
         if is_stateful_call(e):
             raise Unsupported("state-changing call %s not in the first-evaluated position of its statement"
                               % ast.dump(e.func)[:60])
-        if any(k.arg is None for k in e.keywords):
-            raise Unsupported("** in call")
+        star2 = [k for k in e.keywords if k.arg is None]
+        if star2:
+            # g(.., **kwargs): only the function's own ** parameter, passed on as the last argument
+            if (len(star2) != 1 or e.keywords[-1] is not star2[0] or not isinstance(star2[0].value, ast.Name)
+                    or star2[0].value.id != getattr(self, "kwarg", None)
+                    or any(isinstance(a, ast.Starred) for a in pos)):
+                raise Unsupported("** in call other than the function's own **kwargs passed on last")
         if any(isinstance(a, ast.Starred) for a in pos):
             # f(a, b, *rest): one starred argument, the last one, and no keywords (PyLite's ECallStar)
             if (e.keywords or not isinstance(pos[-1], ast.Starred)
@@ -246,12 +266,18 @@ class Translator:
         # a builtin function passed by keyword (sorted(x, key=sum)) is part of the callee's name
         fkw = [k for k in e.keywords if isinstance(k.value, ast.Name) and k.value.id in FUNC_NAMES
                and k.value.id not in self.locals]
-        vkw = [k for k in e.keywords if k not in fkw]
+        vkw = [k for k in e.keywords if k not in fkw and k.arg is not None]
         suffix = "".join(",%s=%s" % (k.arg, k.value.id) for k in fkw) + "".join(",%s=" % k.arg for k in vkw)
+        if star2 and fkw:
+            raise Unsupported("** together with a function-valued keyword")
+        if star2:
+            suffix += ",**"
         if isinstance(f, ast.Name) and f.id == "isinstance":
             args = []
         else:
             args = [self.expr(a) for a in pos] + [self.expr(k.value) for k in vkw]
+            if star2:
+                args.append("(EVar %s)" % cstr(star2[0].value.id))
         if isinstance(f, ast.Name) and f.id == "zip" and f.id not in self.locals and id(e) not in self.iterated:
             # zip(..) is an iterator; PyLite renders it as a list, which is the same only when it is consumed
             # by iteration: as the iterable of a for / comprehension or the argument of tuple(..) / list(..)
@@ -263,6 +289,11 @@ class Translator:
                         and pos[1].id in ("str", "tuple", "list")):
                     return "(ECall %s %s)" % (cstr("isinstance:" + pos[1].id), lst([self.expr(pos[0])]))
                 raise Unsupported("isinstance form")
+            if f.id in getattr(self, "assigned", ()):
+                # a call of a LOCAL name bound by an assignment in this function (`scorer = check_scoring(..)`;
+                # `scorer(..)`): the callee is the VALUE of that name - a call of "call" with it as first argument
+                # (a parameter that is called keeps its name as callee: it is fixed for the whole run)
+                return "(ECall %s %s)" % (cstr("call" + suffix), lst(["(EVar %s)" % cstr(f.id)] + args))
             return "(ECall %s %s)" % (cstr(f.id + suffix), lst(args))
         if (isinstance(f, ast.Attribute) and isinstance(f.value, ast.Call) and isinstance(f.value.func, ast.Name)
                 and f.value.func.id == "super" and not f.value.args and not f.value.keywords):
@@ -308,10 +339,14 @@ class Translator:
         if isinstance(e, ast.Name):
             if e.id in self.modules:
                 raise Unsupported("module %s used as a value" % e.id)
+            if e.id == getattr(self, "kwarg", None):
+                raise Unsupported("**%s used other than passed on as **%s" % (e.id, e.id))
             if e.id in TYPE_NAMES and e.id not in self.locals:
                 return "(EConst (VS %s))" % cstr("<type:%s>" % e.id)    # a type object used as a value (dtype=bool)
             if e.id in CLASS_NAMES and e.id not in self.locals:
                 return "(EConst (VS %s))" % cstr("<class:%s>" % e.id)
+            if e.id in getattr(self, "module_classes", ()) and e.id not in self.locals:
+                return "(EConst (VS %s))" % cstr("<class:%s>" % e.id)    # a class of the same module used as a value
             return "(EVar %s)" % cstr(e.id)
         if isinstance(e, ast.Constant):
             return const(e.value)
@@ -513,6 +548,16 @@ class Translator:
             return s.value.func.value.id, s.value.args[0]
         return None
 
+    def extend_call(self, s):
+        """x.extend(e) as a statement, x a local name -> (x, e)"""
+        if (isinstance(s, ast.Expr) and isinstance(s.value, ast.Call) and isinstance(s.value.func, ast.Attribute)
+                and s.value.func.attr == "extend" and isinstance(s.value.func.value, ast.Name)
+                and s.value.func.value.id not in self.modules
+                and len(s.value.args) == 1 and not s.value.keywords
+                and not isinstance(s.value.args[0], ast.Starred)):
+            return s.value.func.value.id, s.value.args[0]
+        return None
+
     def self_method_call(self, s):
         """self.m(args) as a statement (the method may mutate self: PyLite's SMethod, which rebinds self).
         Admitted only when `self` is the function's first parameter and no alias of it can exist: every
@@ -595,6 +640,14 @@ class Translator:
                     out.append("SAssign %s (ECall %s %s)" % (lst([cstr(x)]), cstr("fill_flat"),
                                                              lst(["(EVar %s)" % cstr(x), self.expr(s.value)])))
                     continue
+                if isinstance(t, ast.Subscript) and not isinstance(t.value, ast.Name) and store_path(t) is not None:
+                    x, path, idx = store_path(t)
+                    if x in self.modules or self.cur_state.get(x) != "object":
+                        raise Unsupported("store through %s, which is not a fresh local object" % x)
+                    out.append("SAssign %s (ECall %s %s)" % (
+                        lst([cstr(x)]), cstr("store:" + path),
+                        lst(["(EVar %s)" % cstr(x)] + [self.expr(i) for i in idx] + [self.expr(s.value)])))
+                    continue
                 if isinstance(t, ast.Subscript):
                     if not isinstance(t.value, ast.Name):
                         raise Unsupported("assignment into a compound object")
@@ -638,10 +691,13 @@ class Translator:
                     raise Unsupported("for ... else")
                 self.iterated.add(id(s.iter))
                 names, unpack = loop_targets(s.target)
+                it_ = self.expr(s.iter)
+                if self.fresh_object(s.iter):
+                    it_ = "(ECall %s %s)" % (cstr("iter"), lst([it_]))     # the keys as of the start of the loop
                 body_ = self.stmts(s.body)
                 if unpack:
                     body_ = "(" + " :: ".join(unpack) + " :: " + body_ + ")"
-                out.append("SFor %s %s %s" % (lst([cstr(n) for n in names]), self.expr(s.iter), body_))
+                out.append("SFor %s %s %s" % (lst([cstr(n) for n in names]), it_, body_))
             elif isinstance(s, ast.Raise):
                 out.append("SRaise")
             elif isinstance(s, ast.Return):
@@ -664,9 +720,14 @@ class Translator:
                 out.append(self.try_stmt(s))
             elif isinstance(s, ast.Expr):
                 ap = self.append_call(s)
-                sm = self.self_method_call(s)
+                ex = self.extend_call(s)
+                sm = self.self_method_call(s) if ex is None else None
                 if ap is not None:
                     out.append("SAppend %s %s" % (cstr(ap[0]), self.expr(ap[1])))
+                elif ex is not None:
+                    self.iterated.add(id(ex[1]))
+                    out.append("SAssign %s (EBin Add (EVar %s) (ECall %s %s))" % (
+                        lst([cstr(ex[0])]), cstr(ex[0]), cstr("list"), lst([self.expr(ex[1])])))
                 elif sm is not None:
                     out.append("SMethod %s %s %s" % (cstr("self"), cstr(sm[0]), lst([self.expr(a) for a in sm[1]])))
                 else:
@@ -678,6 +739,29 @@ class Translator:
 
 def is_full_slice(sl):
     return isinstance(sl, ast.Slice) and sl.lower is None and sl.upper is None and sl.step is None
+
+
+def store_path(t):
+    """x.a[k] / x[i].a[k] / x[i][k] ... as an assignment target: a path of attribute and index steps, at least
+    two of them, rooted at a plain name and ending in an index step; every index a name or a constant
+    -> (x, path string, [index nodes in path order]) or None"""
+    steps, idx = [], []
+    node = t
+    while True:
+        if isinstance(node, ast.Subscript) and not isinstance(node.slice, (ast.Slice, ast.Tuple)):
+            if not isinstance(node.slice, (ast.Name, ast.Constant)):
+                return None
+            steps.append("[]")
+            idx.append(node.slice)
+            node = node.value
+        elif isinstance(node, ast.Attribute):
+            steps.append("." + node.attr)
+            node = node.value
+        else:
+            break
+    if not isinstance(node, ast.Name) or len(steps) < 2 or steps[0] != "[]":
+        return None
+    return node.id, "".join(reversed(steps)), list(reversed(idx))
 
 
 def flat_fill_target(t):
@@ -736,6 +820,9 @@ def all_target_names(t):
 FRESH_LIST_CALLS = {"list"}
 FRESH_ARRAY_CALLS = {"np.array", "np.unique"}      # always return a new array
 FRESH_ARRAY_CALLS_KW = {"np.zeros", "np.empty"}     # fresh also when called with keywords (dtype=)
+# imported functions that build and return a NEW container that nobody else holds (kind "object"):
+# verde.utils.make_xarray_grid returns `xr.Dataset(data_vars, coords, attrs=...)`, created in the call
+FRESH_OBJECT_CALLS = {"make_xarray_grid"}
 
 
 class Fresh:
@@ -748,6 +835,10 @@ class Fresh:
         if (isinstance(e, ast.Call) and isinstance(e.func, ast.Name) and e.func.id in self.tr.modules
                 and e.func.id[:1].isupper() and not any(isinstance(a, ast.Starred) for a in e.args)):
             return "object"      # Cls(...), Cls an imported class: a new object that nobody else holds
+        if (isinstance(e, ast.Call) and isinstance(e.func, ast.Name) and e.func.id in self.tr.modules
+                and e.func.id in FRESH_OBJECT_CALLS and not any(isinstance(a, ast.Starred) for a in e.args)
+                and not any(k.arg is None for k in e.keywords)):
+            return "object"
         if isinstance(e, ast.Constant) and e.value is None:
             return "none"        # not an object that can be mutated; joins with a fresh list / array
         if isinstance(e, ast.Call) and self.tr.dotted(e.func) in FRESH_ARRAY_CALLS_KW:
@@ -854,8 +945,16 @@ class Fresh:
                 elif flat_fill_target(t) is not None:
                     self.drop(state, esc)
                     self.need(state, flat_fill_target(t), ("array",), frozen, "filling through ravel()")
+                elif isinstance(t, ast.Subscript) and not isinstance(t.value, ast.Name) and store_path(t) is not None:
+                    x, _, idx = store_path(t)
+                    for i_ in idx:
+                        self.escaping(i_, esc)
+                    self.drop(state, esc)
+                    self.need(state, x, ("object",), frozen, "store through")
                 elif isinstance(t, ast.Subscript):
                     self.escaping(t.slice, esc)
+                    if not isinstance(t.value, ast.Name):
+                        raise Unsupported("assignment into a compound object")
                     x = t.value.id
                     self.drop(state, esc)
                     if is_full_slice(t.slice):
@@ -896,9 +995,16 @@ class Fresh:
                 state.clear()
                 state.update(self.join(a, b))
             elif isinstance(s, ast.For):
-                self.escaping(s.iter, esc)
+                over_obj = (isinstance(s.iter, ast.Name) and s.iter.id not in self.tr.modules
+                            and state.get(s.iter.id) == "object" and s.iter.id not in frozen)
+                if not over_obj:
+                    self.escaping(s.iter, esc)
                 self.drop(state, esc | set(all_target_names(s.target)))
                 inner_frozen = frozen | {n.id for n in ast.walk(s.iter) if isinstance(n, ast.Name)}
+                if over_obj:
+                    # `for t in x`, x a fresh local object: rendered as a loop over iter(x), the keys as of the
+                    # start of the loop; the body may store through x (the stores' specification keeps the keys)
+                    inner_frozen = frozen
                 while True:
                     a = dict(state)
                     self.drop(a, all_target_names(s.target))
@@ -923,11 +1029,17 @@ class Fresh:
                 self.need(state, x, ("list", "array"), frozen, "in-place " + meth)
             elif isinstance(s, ast.Expr):
                 ap = self.tr.append_call(s)
+                ex = self.tr.extend_call(s)
                 if ap is not None:
                     x, arg = ap
                     self.escaping(arg, esc)
                     self.drop(state, esc)
                     self.need(state, x, ("list",), frozen, "append")
+                elif ex is not None:
+                    x, arg = ex
+                    self.escaping(arg, esc)
+                    self.drop(state, esc)
+                    self.need(state, x, ("list",), frozen, "extend")
                 else:
                     self.escaping(s.value, esc)
                     self.drop(state, esc)
@@ -1063,6 +1175,7 @@ def imported_names(tree):
 def translate(path, names):
     tree = ast.parse(open(path).read())
     tr = Translator(imported_names(tree))
+    tr.module_classes = {n.name for n in tree.body if isinstance(n, ast.ClassDef)}
     found = {}
     defs_ = []
     for n in tree.body:
@@ -1075,13 +1188,22 @@ def translate(path, names):
     for qual, n, cls in defs_:
         if qual in names:
             a = n.args
-            if a.vararg or a.kwarg or a.kwonlyargs or a.posonlyargs:
+            if a.vararg or a.kwonlyargs or a.posonlyargs:
                 raise Unsupported("signature of " + n.name)
             if n.decorator_list:
                 raise Unsupported("decorated function " + n.name)
             params = [x.arg for x in a.args]
+            tr.kwarg = None
+            if a.kwarg:
+                # **kwargs: one more, opaque, parameter - the last one (see the module docstring)
+                tr.kwarg = a.kwarg.arg
+                if tr.kwarg in params or any(isinstance(x, ast.Name) and x.id == tr.kwarg and isinstance(x.ctx, ast.Store)
+                                             for x in ast.walk(n)):
+                    raise Unsupported("**%s is rebound" % tr.kwarg)
+                params.append(tr.kwarg)
             tr.function = n
             tr.locals = set(params) | {x.id for x in ast.walk(n) if isinstance(x, ast.Name) and isinstance(x.ctx, ast.Store)}
+            tr.assigned = tr.locals - set(params)
             tr.cur_state = {}
             tr.handles = set()
             tr.ntemp = 0
@@ -1139,7 +1261,8 @@ def translate(path, names):
             # default values of the trailing parameters (constants only; a function with any other
             # default gets no defaults_ definition, so a proof that needs it fails closed)
             try:
-                dnames = params[len(params) - len(a.defaults):] if a.defaults else []
+                named = [x.arg for x in a.args]
+                dnames = named[len(named) - len(a.defaults):] if a.defaults else []
                 dvals = []
                 for d in a.defaults:
                     if not isinstance(d, ast.Constant):
